@@ -171,6 +171,10 @@ theorem C01_needs_fresh_ids :
 theorem C01_error_text_verbatim :
     Skeleton.current.respErrIffTrimNonEmpty = true ∧ Skeleton.current.respErrFreshPerFrame = true := by decide
 
+/-- M3's `handlerReturn v e` puts the handler's value and error into the response as they are. `utils.Call` hands back exactly what the function returned — `out = fn.Call(in)` is the only write to its result list (checked against the regenerated skeleton; `utils/call.go` is not among this property's anchors, yet every handler's and every closure's results pass through it). A normalisation there (e.g. a zero-valued struct error such as `context.DeadlineExceeded` turned into nil) would give a caller a result its handler never produced. -/
+theorem C01_results_pass_through_utils_call :
+    Skeleton.current.ucResultsUntouched = true ∧ Skeleton.current.reqCallViaUtilsCall = true := by decide
+
 end Panrpc.Sys
 
 #print axioms Panrpc.Sys.C01_ids_unique
@@ -184,3 +188,4 @@ end Panrpc.Sys
 #print axioms Panrpc.Sys.C01_needs_recv_before_write
 #print axioms Panrpc.Sys.C01_needs_fresh_ids
 #print axioms Panrpc.Sys.C01_error_text_verbatim
+#print axioms Panrpc.Sys.C01_results_pass_through_utils_call
